@@ -83,13 +83,13 @@ def base_function_names() -> set:
 
 
 def may_err_val(e: Any) -> bool:
-    """can the COMPILED runner produce a CELEvalError *object as a value* for this expression (instead of raising)?
-    Syntactic over-approximation: a `||`/`&&`/`?:`, an `in` relation, `matches`, or a call of an unbound function
-    occurs anywhere inside (error values propagate through operators as values)."""
+    """mirror of Lean `!Expr.noErrVal`: can the COMPILED runner produce a CELEvalError *object as a value* for this
+    expression (instead of raising)?  Syntactic over-approximation: a `||`/`&&`/`?:`, an `in` relation, `matches`, a
+    call of an unbound function or has() occurs anywhere inside (error values propagate through operators as values)."""
     fns = base_function_names()
     for n in A.walk(e):
         k = n[0]
-        if k in ERRVAL_SOURCES:
+        if k in ERRVAL_SOURCES or k == "has":
             return True
         if k == "bin" and n[1] == "in":
             return True
@@ -103,22 +103,28 @@ def may_err_val(e: Any) -> bool:
 
 
 # functions whose transpiled call applies the function to an error-value argument without looking at it
-# and that do not raise on it (measured by `extra_checks`: prim laws)
-NONSTRICT_FUNS = {"type", "string", "contains", "dyn"}
+# and that do not raise on it (measured on the live functions by the `law` cases)
+NONSTRICT_FUNS = {"type", "string", "contains"}
+
+
+def strict_fn(f: str) -> bool:
+    """mirror of `PrimD.strictFn`"""
+    return f not in NONSTRICT_FUNS
 
 
 def unsafe_sites(e: Any) -> List[str]:
-    """sites where an error value may flow into an error-unaware consumer of the transpiled program (D7)"""
+    """sites where an error value may flow into an error-unaware consumer of the transpiled program (D7);
+    mirror of the D7 clauses of Lean `Expr.safe`"""
     out = []
     for n in A.walk(e):
         k = n[0]
         if k == "list" and any(may_err_val(x) for x in n[1]):
             out.append("list-element")
-        if k == "map" and any(may_err_val(v) for _k, v in n[1]):
-            out.append("map-value")
-        if k == "call" and any(may_err_val(x) for x in n[2]):
+        if k == "map" and any(may_err_val(x) for kv in n[1] for x in kv):
+            out.append("map-entry")
+        if k == "call" and not strict_fn(n[1]) and any(may_err_val(x) for x in n[2]):
             out.append("call-arg:" + n[1])
-        if k == "mcall" and (any(may_err_val(x) for x in n[3]) or may_err_val(n[1])):
+        if k == "mcall" and not strict_fn(n[2]) and (any(may_err_val(x) for x in n[3]) or may_err_val(n[1])):
             out.append("mcall-arg:" + n[2])
         if k == "macro" and n[1] in ("map", "filter", "exists_one") and may_err_val(n[4]):
             out.append("macro-body:" + n[1])
@@ -126,7 +132,8 @@ def unsafe_sites(e: Any) -> List[str]:
 
 
 def safe(e: Any) -> bool:
-    return not unsafe_sites(e)
+    """mirror of Lean `Expr.safe` (checked against the Lean driver on every generated expression)"""
+    return not unsafe_sites(e) and "has" not in A.kinds(e) and not nonbool_macro_body(e)
 
 
 def idents_used(e: Any) -> set:
@@ -268,6 +275,41 @@ def model_expr(e: Any, scope: set) -> str:
     raise NotModelled(k)
 
 
+def syntax_expr(e: Any) -> str:
+    """serialisation for the driver's `S` command (Expr.safe): values do not matter, only the shape"""
+    k = e[0]
+    if k == "lit":
+        return "lit b 1" if e[1] == "bool" else "lit n"
+    if k == "id":
+        return "id " + e[1]
+    if k == "un":
+        return f"un {'not' if e[1] == '!' else 'neg'} {syntax_expr(e[2])}"
+    if k == "bin":
+        return f"bin {BINOPS[e[1]]} {syntax_expr(e[2])} {syntax_expr(e[3])}"
+    if k in ("or", "and"):
+        return f"{k} {syntax_expr(e[1])} {syntax_expr(e[2])}"
+    if k == "cond":
+        return f"cond {syntax_expr(e[1])} {syntax_expr(e[2])} {syntax_expr(e[3])}"
+    if k == "list":
+        return f"list {len(e[1])} " + " ".join(syntax_expr(x) for x in e[1])
+    if k == "map":
+        flat = [x for kv in e[1] for x in kv]
+        return f"map {len(flat)} " + " ".join(syntax_expr(x) for x in flat)
+    if k == "idx":
+        return f"idx {syntax_expr(e[1])} {syntax_expr(e[2])}"
+    if k == "sel":
+        return f"sel {syntax_expr(e[1])} {e[2]}"
+    if k == "call":
+        return f"call {e[1]} {len(e[2])} " + " ".join(syntax_expr(x) for x in e[2])
+    if k == "mcall":
+        return f"mcall {syntax_expr(e[1])} {e[2]} {len(e[3])} " + " ".join(syntax_expr(x) for x in e[3])
+    if k == "macro":
+        return f"macro {e[1]} {syntax_expr(e[2])} {e[3]} {syntax_expr(e[4])}"
+    if k in ("has", "dyn"):
+        return f"{k} {syntax_expr(e[1])}"
+    raise NotModelled(k)
+
+
 def model_env() -> str:
     return f"{len(MODEL_VARS)} " + " ".join(f"{n} {v}" for n, v in MODEL_VARS.items())
 
@@ -289,6 +331,39 @@ PRIM_POOL = [("i 0", "celpy.celtypes.IntType(0)"), ("i 1", "celpy.celtypes.IntTy
 PRIM_OPS = {"neg": ("-_", 1), "not": ("!_", 1), "add": ("_+_", 2), "sub": ("_-_", 2), "mul": ("_*_", 2), "div": ("_/_", 2),
             "mod": ("_%_", 2), "lt": ("_<_", 2), "le": ("_<=_", 2), "gt": ("_>_", 2), "ge": ("_>=_", 2), "eq": ("_==_", 2),
             "ne": ("_!=_", 2), "in": ("_in_", 2), "index": ("_[_]", 2), "size": ("size", 1), "lor": ("_||_", 2), "land": ("_&&_", 2)}
+
+# value pool for the primitive laws (python side only): every CEL kind, boundaries, an error object, type objects
+LAW_POOL = [c for (_t, c) in A.VARS.values()] + [
+    "celpy.evaluation.CELEvalError('boom')", "celpy.celtypes.IntType(-9223372036854775808)", "celpy.celtypes.IntType(1)",
+    "celpy.celtypes.UintType(0)", "celpy.celtypes.DoubleType(float('nan'))", "celpy.celtypes.DoubleType(1e300)",
+    "celpy.celtypes.StringType('UTC')", "celpy.celtypes.StringType('10s')", "celpy.celtypes.StringType('(')",
+    "celpy.celtypes.StringType('2009-02-13T23:31:30Z')", "celpy.celtypes.StringType('12')", "celpy.celtypes.BytesType(b'\\xff')",
+    "celpy.celtypes.IntType", "celpy.celtypes.ListType", "celpy.celtypes.TypeType(celpy.celtypes.IntType(1))",
+    "celpy.celtypes.ListType([celpy.celtypes.ListType([celpy.celtypes.IntType(1)]), None])",
+    "celpy.celtypes.MapType({celpy.celtypes.BoolType(True): celpy.celtypes.DoubleType(1.5)})",
+    "celpy.celtypes.TimestampType('0001-01-01T00:00:00Z')", "celpy.celtypes.DurationType('-1s')"]
+LAW_ERR = LAW_POOL.index("celpy.evaluation.CELEvalError('boom')")
+# operators whose transpiled application is a plain call of the base function (strict by the laws)
+LAW_OPERATORS = ["!_", "-_", "_+_", "_-_", "_*_", "_/_", "_%_", "_<_", "_<=_", "_>_", "_>=_", "_==_", "_!=_", "_in_", "_[_]"]
+LAW_ARITY = {"!_": [1], "-_": [1], "size": [1], "type": [1], "bool": [1], "bytes": [1], "double": [1], "duration": [1], "int": [1],
+             "list": [1], "map": [1], "null_type": [1], "string": [1], "timestamp": [1], "uint": [1],
+             "getDate": [1, 2], "getDayOfMonth": [1, 2], "getDayOfWeek": [1, 2], "getDayOfYear": [1, 2], "getFullYear": [1, 2],
+             "getMonth": [1, 2], "getHours": [1, 2], "getMilliseconds": [1, 2], "getMinutes": [1, 2], "getSeconds": [1, 2]}
+LAW_SKIP = {"_||_", "_&&_", "_?_:_"}      # modelled concretely (vor/vand/vcond), compared as `prim` cases
+ERR_SOURCES = {"_in_", "matches"}
+
+
+def law_cases() -> List[Dict[str, Any]]:
+    out = []
+    n = len(LAW_POOL)
+    for f in sorted(base_function_names()):
+        if f in LAW_SKIP:
+            continue
+        for ar in LAW_ARITY.get(f, [2]):
+            for args in itertools.product(range(n), repeat=ar):
+                out.append({"kind": "law", "fn": f, "args": list(args)})
+    return out
+
 
 # ------------------------------------------------------------------------------------------
 # conformance corpus
@@ -387,10 +462,15 @@ class C03(Prop):
         for leaf in ERR_LEAVES:
             for ctx in CONTEXTS:
                 cases.append({"kind": "text", "src": ctx.replace("@", "(" + leaf + ")"), "binds": "std", "package": None})
-        # (e) primitives on the pool
+        # (e) primitives on the model's pool (driver fidelity + laws)
+        prims = []
         for op, (_fn, ar) in PRIM_OPS.items():
             for args in itertools.product(range(len(PRIM_POOL)), repeat=ar):
-                cases.append({"kind": "prim", "op": op, "args": list(args)})
+                prims.append({"kind": "prim", "op": op, "args": list(args)})
+        cases += rng.sample(prims, 2500) if quick else prims
+        # (f) primitive laws on the broad pool: every base function / operator
+        laws = law_cases()
+        cases += rng.sample(laws, 3000) if quick else laws
         return cases
 
     def search_cases(self, rng):
@@ -428,10 +508,27 @@ class C03(Prop):
     def impl(self, c):
         if c["kind"] == "prim":
             return self._impl_prim(c)
+        if c["kind"] == "law":
+            return self._impl_law(c)
         src, bd, pkg = self._src_binds(c)
         i = run_one(src, "I", bd, pkg)
         k = run_one(src, "C", bd, pkg)
         out = f"I={i} || C={k}"
+        c["_impl"] = out
+        return out
+
+    def _impl_law(self, c):
+        from celpy.evaluation import base_functions
+        fn = base_functions[c["fn"]]
+        args = [_eval_ctor(LAW_POOL[i]) for i in c["args"]]
+        try:
+            v = fn(*args)
+        except RecursionError:
+            out = "raise RecursionError"
+        except Exception as ex:  # noqa
+            out = "raise " + "/".join(k.__name__ for k in type(ex).__mro__[:-2])
+        else:
+            out = "ok " + celrun.canon(v)
         c["_impl"] = out
         return out
 
@@ -450,6 +547,8 @@ class C03(Prop):
 
     # -- model -----------------------------------------------------------------------------
     def model_line(self, c):
+        if c["kind"] == "law":
+            return None
         if c["kind"] == "prim":
             return f"P {c['op']} {len(c['args'])} " + " ".join(PRIM_POOL[i][0] for i in c["args"])
         if c["kind"] == "text" and c.get("binds") != "std" and c.get("binds"):
@@ -485,6 +584,8 @@ class C03(Prop):
     def oracle(self, c, out):
         if c["kind"] == "prim":
             return self._oracle_prim(c, out)
+        if c["kind"] == "law":
+            return self._oracle_law(c, out)
         i, k = split_io(out)
         src = self._src_binds(c)[0]
         if i == "parse-error" or k == "parse-error":
@@ -500,6 +601,33 @@ class C03(Prop):
         ok_ = k if is_value(k) else "error"
         if oi != ok_:
             return f"{src!r}: interpreter gives {i}, compiled runner gives {k}"
+        return None
+
+    def _oracle_law(self, c, out):
+        """PrimLaws (hypotheses of Cel.Props.C03.evalC_eq_evalI) on the live base functions over LAW_POOL:
+        caught / strict / noErrOut / cleanOut"""
+        f = c["fn"]
+        args = [LAW_POOL[i] for i in c["args"]]
+        has_err = LAW_ERR in c["args"]
+        tabs = handler_tables()
+        if out.startswith("raise "):
+            classes = out[6:].split("/")
+            if not any(k in tabs["result"] for k in classes):
+                return (f"base function {f!r} applied to {args} raises {classes[0]}, which result() does not convert: the compiled "
+                        f"runner cannot absorb it in ||, &&, ?: although the interpreter (function_eval/operator rule) may")
+            return None
+        val = out[3:]
+        if has_err:
+            if f not in NONSTRICT_FUNS and val != "errvalue":
+                return (f"base function {f!r} applied to {args} (an error object among the operands) returns the plain value {val}: "
+                        f"not error-strict, so an error value produced by ||/&&/?: is silently consumed by the compiled runner")
+            return None
+        if val == "errvalue":
+            if f not in ERR_SOURCES:
+                return f"base function {f!r} applied to error-free operands {args} returns a CELEvalError object as a value"
+            return None
+        if "errvalue" in val:
+            return f"base function {f!r} applied to error-free operands {args} returns a value containing an error object: {val}"
         return None
 
     def _oracle_prim(self, c, out):
@@ -522,6 +650,8 @@ class C03(Prop):
         return None
 
     def nontrivial(self, c, out):
+        if c["kind"] == "law":
+            return LAW_ERR in c["args"] or out.startswith("raise")
         if c["kind"] == "prim":
             return "e" in [PRIM_POOL[i][0] for i in c["args"]] or out.startswith("raise")
         a = self._ast(c)
@@ -529,6 +659,30 @@ class C03(Prop):
             return "err" in out or "EXC" in out
         ks = A.kinds(a)
         return bool(ks & {"or", "and", "cond", "macro", "has"}) or " err" in out or "=err" in out or "EXC" in out
+
+    # -- the syntactic zone predicate exists twice (Python, Lean): keep them equal -----------------------------
+    def extra_checks(self, tier, rng):
+        from ..core import run_driver, driver_available
+        if not driver_available(self.pid):
+            return []
+        g, gm = A.Gen(rng), FragGen(rng)
+        asts = [(g if i % 3 else gm).expr(rng.choice([1, 2, 3, 4, 5])) for i in range(1500 if tier == "quick" else 20000)]
+        for c in corpus_asts():
+            asts.append(c)
+        lines, keep = [], []
+        for a in asts:
+            try:
+                lines.append("S " + syntax_expr(a))
+                keep.append(a)
+            except NotModelled:
+                pass
+        outs = run_driver(self.pid, lines)
+        bad = [(A.render(a), o, safe(a)) for a, o in zip(keep, outs) if o != ("safe" if safe(a) else "unsafe")]
+        res = [{"name": "safe-predicate-python-equals-lean", "ok": not bad,
+                "detail": f"{len(keep)} expressions classified by Expr.safe (Lean) and safe() (Python); "
+                          + (f"{len(bad)} differ, first: {bad[0]}" if bad else "all equal"),
+                "case": {"kind": "text", "src": bad[0][0], "binds": "std", "package": None} if bad else {}}]
+        return res
 
     # -- known findings --------------------------------------------------------------------
     def known_preds(self):
@@ -539,27 +693,27 @@ class C03(Prop):
             return self._ast(c)
 
         def has_pybool(c):
-            if c["kind"] == "prim":
+            if c["kind"] in ("prim", "law"):
                 return False
             return "has" in A.kinds(ast(c)) or (c["kind"] == "text" and "has(" in c["src"])
 
         def error_value_consumer(c):
-            if c["kind"] == "prim":
+            if c["kind"] in ("prim", "law"):
                 return False
             i, k = io(c)
-            return (not safe(ast(c))) and not is_value(i) and is_value(k)
+            return bool(unsafe_sites(ast(c))) and not is_value(i) and is_value(k)
 
         def interp_escape(c):
-            if c["kind"] == "prim":
+            if c["kind"] in ("prim", "law"):
                 return False
             i, _k = io(c)
             return i.startswith("EXC ") and i != "EXC RecursionError"
 
         def outside_builtin_syntax(c):
-            return c["kind"] != "prim" and ast(c)[0] == "raw" and ast(c)[2] != "parse"
+            return c["kind"] not in ("prim", "law") and ast(c)[0] == "raw" and ast(c)[2] != "parse"
 
         def python_name_clash(c):
-            if c["kind"] == "prim":
+            if c["kind"] in ("prim", "law"):
                 return False
             a = ast(c)
             if a[0] == "raw":
@@ -567,9 +721,12 @@ class C03(Prop):
             return bool(python_hostile_names(a))
 
         def macro_nonbool_body(c):
-            return c["kind"] != "prim" and ast(c)[0] != "raw" and nonbool_macro_body(ast(c))
+            return c["kind"] not in ("prim", "law") and ast(c)[0] != "raw" and nonbool_macro_body(ast(c))
 
         def function_object_value(c):
+            if c["kind"] == "law":
+                # operator.getitem applied to a type object and an error object: typing.GenericAlias
+                return c["fn"] == "_[_]" and LAW_POOL[c["args"][0]] in ("celpy.celtypes.IntType", "celpy.celtypes.ListType")
             if c["kind"] == "prim":
                 return False
             a = ast(c)
@@ -592,6 +749,18 @@ class C03(Prop):
                 "outside_builtin_syntax": outside_builtin_syntax, "python_name_clash": python_name_clash,
                 "macro_nonbool_body": macro_nonbool_body, "function_object_value": function_object_value,
                 "dotted_binding_shadowed": dotted_binding_shadowed}
+
+
+def corpus_asts() -> List[Any]:
+    out = []
+    from ..core import corpus_cases
+    for c in corpus_cases("C03"):
+        if c.get("kind") == "text":
+            try:
+                out.append(A.parse_text(c["src"]))
+            except Exception:
+                pass
+    return out
 
 
 # ------------------------------------------------------------------------------------------
